@@ -20,7 +20,7 @@ def options():
     out = []
     for st in ("filesystem", "memory", "null"):
         for meta in ((False, True) if st == "filesystem" else (False,)):
-            for cache in ((None, 1) if st == "filesystem" else (None,)):
+            for cache in ((None, 1, 0.5) if st == "filesystem" else (None,)):
                 for ro in (None, False, True):
                     for runner in (None, "local", "null"):
                         out.append({"type": st, "meta": meta, "cache": cache, "readonly": ro, "runner": runner})
@@ -85,6 +85,18 @@ def build_env(o, base, how, name="ca"):
         json.dump(cluster_dict(o, base, name), open(os.path.join(cfg, "cluster.json"), "w"))
         json.dump({"name": "r", "clusters": {name: "cluster.json"}}, open(os.path.join(cfg, "repo.json"), "w"))
         json.dump({"name": "e", "repos": ["repo.json"]}, open(os.path.join(cfg, "env.json"), "w"))
+        return m.Environment(m.configuration._load_config(cfg, "env.json"))
+    if how == "json-nested":
+        # two levels of relative references: the environment file names the repository file relative to itself, and the
+        # repository file (in another directory) names the cluster file relative to ITSELF; a decoy of the same relative
+        # name sits next to the environment file
+        os.makedirs(os.path.join(cfg, "repos", "main", "clusters"), exist_ok=True)
+        os.makedirs(os.path.join(cfg, "clusters"), exist_ok=True)
+        json.dump(cluster_dict(o, base, name), open(os.path.join(cfg, "repos", "main", "clusters", "cluster.json"), "w"))
+        decoy = {"name": name, "storage": {"type": "filesystem", "path": os.path.join(base, "decoy")}}
+        json.dump(decoy, open(os.path.join(cfg, "clusters", "cluster.json"), "w"))
+        json.dump({"name": "r", "clusters": {name: "clusters/cluster.json"}}, open(os.path.join(cfg, "repos", "main", "repo.json"), "w"))
+        json.dump({"name": "e", "repos": ["repos/main/repo.json"]}, open(os.path.join(cfg, "env.json"), "w"))
         return m.Environment(m.configuration._load_config(cfg, "env.json"))
     if how == "yaml":
         cd = cluster_dict(o, "{{ root }}", name)
@@ -494,7 +506,7 @@ def run(ctx):
                 "probes with the constructor-built twin, then dumped and rebuilt; 9 explicit-argument overrides (each also dumped and rebuilt); repository lists (clusters registered under their own name, or under a key that differs from their name field) of "
                 "length 1..3 over cluster-name subsets in every order, also with a prepend / append after a first resolution. "
                 "distinct = (options, supply form) / overrides / repository lists." % len(options()))
-    tasks = [(o, how) for o in options() for how in ("dict", "dict-reused", "json", "yaml")]
+    tasks = [(o, how) for o in options() for how in ("dict", "dict-reused", "json", "json-nested", "yaml")]
     a = option_case(tasks[5])
     b = option_case(tasks[5])
     ctx.selfcheck("one case gives identical observations twice", a["violations"] == b["violations"])
